@@ -12,6 +12,8 @@ import (
 
 	"golang.org/x/exp/slices"
 	"gopkg.in/yaml.v3"
+
+	"github.com/honeycombio/refinery/internal/simhook"
 )
 
 // In order to be able to unmarshal "15s" etc. into time.Duration, we need to
@@ -651,6 +653,7 @@ func NewConfig(opts *CmdEnv, currentVersion ...string) (Config, error) {
 // Reload attempts to reload the configuration; if it has changed, it stores the
 // new data and calls the reload callbacks.
 func (f *fileConfig) Reload(opts ...ReloadedConfigDataOption) error {
+	simhook.Yield("config.Reload.entry")
 	cData, rData, err := newConfigAndRules(f.opts)
 	if err != nil {
 		return err
@@ -677,6 +680,7 @@ func (f *fileConfig) Reload(opts ...ReloadedConfigDataOption) error {
 	}
 
 	// otherwise, update our state and call the callbacks
+	simhook.Yield("config.Reload.apply")
 	f.mux.Lock()
 	f.mainConfig = cfg.mainConfig
 	f.mainHash = cfg.mainHash
